@@ -321,6 +321,8 @@ class Splitter:
                             error=e,
                         )
                     )
+                    # What follows the raw of the failed block is regular text again.
+                    self._current_char_index = e.end_index - 1
 
                 except ParserStateException as e:
                     # This is a bug in the parser, not in the bibtex. We should not continue.
@@ -394,7 +396,7 @@ class Splitter:
             self._unaccepted_mark = comma_mark
             raise BlockAbortedException(
                 abort_reason=f"Expected comma after entry key, but found {comma_mark.group(0)}",
-                end_index=comma_mark.end(),
+                end_index=comma_mark.start(),
             )
         else:
             self._open_brackets += 1
@@ -434,7 +436,7 @@ class Splitter:
             raise BlockAbortedException(
                 abort_reason="Expected equals sign after field key,"
                 f" but found {equals_mark.group(0)}",
-                end_index=equals_mark.end(),
+                end_index=equals_mark.start(),
             )
         key = self.bibstr[m.end() + 1 : equals_mark.start()].strip()
         value_start = equals_mark.end()
